@@ -1038,6 +1038,14 @@ func (x *FnExec) evalCall(fr *frame, e *ECall, c *evalCtx) (Val, error) {
 		}
 		al := x.heapGet(c.old, "$alloc", "(Array Ref Bool)")
 		return Val{S: and(not(eq(v.S, "nil")), not(sel(al, v.S))), T: B}, nil
+	case "allocated":
+		// allocated(p): p is nil or an object that exists in the current state (so it differs from anything allocated later)
+		v, err := arg(0)
+		if err != nil {
+			return Val{}, err
+		}
+		al := x.heapGet(c.state(), "$alloc", "(Array Ref Bool)")
+		return Val{S: or(eq(v.S, "nil"), sel(al, x.scalar(v))), T: B}, nil
 	case "typeis":
 		// typeis(x, T): dynamic type of interface value x is T
 		v, err := arg(0)
